@@ -567,12 +567,24 @@ func C03(tier rt.Tier) int {
 			{name: "three-key-base", initial: map[string]string{"0a1b": "p", "0a1c": "p", "1c00": "q"}, paths: pfPaths, vals: []string{"x"}, children: 2, opsPerKid: 3, directOps: true, depth: 7},
 		}
 	}
+	if rt.SubRun {
+		// BatchSize = 2: a merge of more than two node changes crosses the batching threshold
+		runs = []txConfig{
+			{name: rt.VariantPrefix + "prefixfree-2children", initial: map[string]string{"0a1b": "p", "0b22": "p"}, paths: pfPaths[:4], vals: []string{"x"}, children: 2, opsPerKid: 2, directOps: false, depth: 6},
+			{name: rt.VariantPrefix + "nested-2children-pnodedb", persistent: true, initial: map[string]string{"aa": "p", "aaab": "p"}, paths: nested[:5], vals: []string{"x"}, children: 2, opsPerKid: 2, directOps: false, depth: 6},
+		}
+		if tier == rt.Thorough {
+			runs[0].paths, runs[0].opsPerKid, runs[0].depth, runs[0].directOps = pfPaths, 3, 7, true
+			runs[1].paths, runs[1].opsPerKid, runs[1].depth = nested, 3, 7
+		}
+	}
 	for _, c := range runs {
 		runTx(rep, c, time.Now().Add(per))
 	}
+	rep.RunVariant()
 	rep.Set("rule", "BFS over all event histories {open child, insert/delete in a child or directly in the block trie, merge child (MergeMPTChanges + txn-cache commit), discard child}; children are LevelNodeDB(mem, parent.db) tries sharing one StateCache/BlockCache; after every event the parent's deep fingerprint (root, pending changes with re-encoded nodes, deletes, every node of its writable store re-hashed) must be unchanged unless the event is an accepted merge or a direct parent op; merges of stale children must be rejected; every non-stale view is compared with its map model")
 	rep.Assumption("the view of a child whose parent moved on after it was opened is not checked (the property only demands that its merge is rejected and the parent stays untouched)")
-	return rep.Finish()
+	return rep.End()
 }
 
 // lineDiff lists the lines present in only one of two fingerprints.
